@@ -262,6 +262,7 @@ class _PBytes(P):
             c.assume(ln >= self.minlen)
             if self.maxlen is not None:
                 c.assume(ln <= self.maxlen)
+            c.soft.append(ln <= max(self.minlen, 6))
         b = Base(nm, "bytes", ln)
         return mk_rope("bytes", [BS(b, 0, ln)])
 
@@ -298,6 +299,7 @@ class _PStr(P):
         c.assume(ln >= self.minlen)
         if self.maxlen is not None:
             c.assume(ln <= self.maxlen)
+        c.soft.append(ln <= max(self.minlen, 6))
         b = Base(nm, "str", ln, maxel=self.maxcp, free_of=frozenset(ord(ch) for ch in self.free_of),
                  nonempty=self.minlen > 0, props=frozenset(self.props))
         return mk_rope("str", [BS(b, 0, ln)])
